@@ -624,6 +624,13 @@ int parse_instruction_6809(AsmContext *asm_context, char *instr)
     operand.use_long = 1;
   }
 
+  // The widest indexed offset (n,R and n,PC) is 16 bit.
+  if (operand.type == OPERAND_INDEX_OFFSET_REG ||
+      operand.type == OPERAND_INDEX_OFFSET_PC)
+  {
+    if (check_range(asm_context, "Offset", operand.value, -32768, 0xffff) == -1) { return -1; }
+  }
+
 //printf("%s %d\n", instr, operand.type);
 
   n = 0;
